@@ -519,6 +519,14 @@ class XsdAttributeGroup(
 
                 base_attr = self.base_attributes[name]
 
+                if self.derivation == 'restriction' and name is not None and \
+                        base_attr.use == 'prohibited' and attr.use != 'prohibited':
+                    # A prohibited use is not an attribute use of the base type
+                    if wildcard is None or not wildcard.is_matching(name):
+                        msg = _("Unexpected attribute {!r} in restriction")
+                        self.parse_error(msg.format(name))
+                    continue
+
                 if isinstance(attr, XsdAnyAttribute):
                     assert name is None, "name key resolves to an xs:anyAttribute"
                     assert isinstance(base_attr, XsdAnyAttribute), "invalid base attribute"
